@@ -24,6 +24,7 @@ import (
 	"github.com/hashicorp/raft"
 	sql "github.com/rqlite/rqlite/v10/db"
 	"github.com/rqlite/rqlite/v10/internal/rsum"
+	"github.com/rqlite/rqlite/v10/snapshot/plan"
 	"github.com/rqlite/rqlite/v10/snapshot/proto"
 	"github.com/rqlite/rqlite/v10/snapshot/sidecar"
 	pb "google.golang.org/protobuf/proto"
@@ -35,6 +36,7 @@ type vcNode struct {
 	meta  *raft.SnapshotMeta // content of a meta.json written through snapshot.writeMeta
 	sc    *sidecar.Sidecar   // content of a sidecar written through sidecar.WriteFile
 	fp    *vcFP              // content of a clean-snapshot marker
+	plan  *plan.Plan         // content of a reap plan written through plan.WriteToFile
 	mtime int64
 }
 
@@ -59,6 +61,7 @@ type vcFSModel struct {
 	crcws   map[*rsum.CRC32Writer]*vcCRCW
 	crcrs   map[*rsum.CRC32Reader]*vcCRCR
 	encs    []*proto.SnapshotHeader
+	metas   []*raft.SnapshotMeta // metadata serialised by json.Marshal (the reap plan's WriteMeta step)
 }
 
 var vcFS *vcFSModel
@@ -662,5 +665,87 @@ func vcCreateSnapshotFingerprint(s *Store) error {
 	}
 	n.fp = &vcFP{mtime: d.mtime, size: int64(len(d.data)), crc: vcCRCOf(d.data)}
 	n.data = []byte("{fingerprint}")
+	return nil
+}
+
+// ---------------------------------------------------------------- reap (consolidation) plan
+
+const vcMetaJSONPrefix = "{meta#"
+
+// encoding/json.Marshal: the only value the code in scope serialises itself is the metadata of the
+// consolidated snapshot (reapInternal); the bytes are a reference to the recorded value.
+func vcJSONMarshal(v any) ([]byte, error) {
+	if m, ok := v.(*raft.SnapshotMeta); ok {
+		c := *m
+		vcFS.metas = append(vcFS.metas, &c)
+		return []byte(vcMetaJSONPrefix + string(rune('a'+len(vcFS.metas)-1)) + "}"), nil
+	}
+	return []byte("{json}"), nil
+}
+
+// os.WriteFile
+func vcOsWriteFile(name string, data []byte, perm os.FileMode) error {
+	n, err := vcCreateFile(name)
+	if err != nil {
+		return err
+	}
+	n.data = append([]byte(nil), data...)
+	if strings.HasPrefix(string(data), vcMetaJSONPrefix) && len(data) == len(vcMetaJSONPrefix)+2 {
+		if i := int(data[len(vcMetaJSONPrefix)] - 'a'); i >= 0 && i < len(vcFS.metas) {
+			c := *vcFS.metas[i]
+			n.meta = &c
+		}
+	}
+	return nil
+}
+
+// plan.WriteToFile (temporary file, then rename, as the real one)
+func vcPlanWriteToFile(p *plan.Plan, path string) error {
+	tmp := path + ".tmp"
+	n, err := vcCreateFile(tmp)
+	if err != nil {
+		return err
+	}
+	n.data = []byte("{plan}")
+	n.plan = p
+	return vcOsRename(tmp, path)
+}
+
+// plan.ReadFromFile
+func vcPlanReadFromFile(path string) (*plan.Plan, error) {
+	n, ok := vcFS.nodes[path]
+	if !ok || n.dir {
+		return nil, vcErrNotExist
+	}
+	if n.plan == nil {
+		return nil, vcErrBadData
+	}
+	return n.plan, nil
+}
+
+// db.CheckpointRemove: the WAL token next to the database token (path-wal) is folded into it and
+// removed - whatever it holds, as SQLite checkpoints whatever valid frames the WAL file has.
+func vcCheckpointRemove(path string) error {
+	n, ok := vcFS.nodes[path]
+	if !ok || !vcIsValidSQLiteFile(path) {
+		return errors.New("verif: invalid database file " + path)
+	}
+	st, seq, ok := vcDecodeDB(n.data)
+	if !ok {
+		return errors.New("verif: invalid database file " + path)
+	}
+	wp := path + "-wal"
+	if wn, ok := vcFS.nodes[wp]; ok {
+		if !vcIsValidSQLiteWALFile(wp) {
+			return errors.New("verif: invalid WAL file " + wp)
+		}
+		_, wseq, ok := vcFoldWAL(&st, wn.data)
+		if !ok {
+			return errors.New("verif: invalid WAL file " + wp)
+		}
+		seq = wseq
+		vcFS.del(wp)
+		n.data = vcDBBytes(st, seq)
+	}
 	return nil
 }
